@@ -201,7 +201,8 @@ def main():
         only = args[args.index("--only") + 1].split(",")
     if "--tier" in args:
         tier = args[args.index("--tier") + 1]
-    results_path = "/verif/mutation_results.json"
+    root = os.environ.get("VERIF_MUT_ROOT", "/verif")
+    results_path = f"{root}/mutation_results.json"
     results = json.load(open(results_path)) if os.path.exists(results_path) else {}
     for name in M:
         if only and not any(name.startswith(o) for o in only):
@@ -214,7 +215,7 @@ def main():
         entry = {"file": file, "checks": {}}
         for cid in expect + control:
             t0 = time.time()
-            code, out = run(f"cd /verif && ./check.sh {cid} {tier}", env={
+            code, out = run(f"cd {root} && ./check.sh {cid} {tier}", env={
                 "TCHERAN_SRC": f"{SCRATCH}/src", "VERIF_TARGET": TARGET,
                 "VERIF_EVIDENCE_OUT": "/tmp/tcheran-mut-evidence.json"})
             dt = time.time() - t0
